@@ -29,6 +29,7 @@ RULE = ("states = (model state, implementation fingerprint) pairs of the history
         "evaluator and reference scheme for every call, byte-identical transcripts across processes")  # fmt: skip
 
 TEXTS = {k: c11.TEXTS[k] for k in ("A", "A_trivia", "A_weights", "B")}
+TEXTS["open_comment_after"] = c11.TEXTS["open_comment_after"]
 TEXTS["A_utf8"] = 'def exp { salt: "é" splitters: org, uid return "U1" weighted 1, "U2" weighted 1, "U3" weighted 1 }'
 INPUTS = [
     {"uid": 1, "org": "1", "f": 1, "g": 3},
@@ -133,7 +134,10 @@ def run(res, tier):
     xlife.explore(res, spec)
     # fresh-evaluator table equals the reference scheme (so 'same as fresh' is also 'same as published')
     for k, t in TEXTS.items():
-        ast = rp.parse(t)
+        cl = rp.classify(t)
+        if cl[0] != "accept":
+            continue  # e.g. the text ending inside a block comment: documented ambiguously, model = fresh constructor only
+        ast = cl[1]
         for xi, x in enumerate(spec.inputs):
             why = oracle.agree(("unroutable",) if spec.table[k][xi][0] == "unroutable" else spec.table[k][xi], oracle.expected(ast, x))
             if why:
@@ -141,7 +145,7 @@ def run(res, tier):
     xproc(res, tier)
     res.set("traces_validated_against_impl", res.cov.get("transitions", 0))
     res.set("bounds", {"slots": spec.slots, "depth": spec.depth, "texts": sorted(TEXTS), "inputs": len(spec.inputs)})
-    if res.cov.get("global_state_changed"):
+    if res.cov.get("global_state_changed") and not res.cov.get("isolated_mode"):
         res.caps.append("module-level state of pyab_experiment changed during exploration")
     res.assumptions += ["locales not installed in the image (only C, C.utf8, POSIX exist) are represented by one non-existent locale name",
                         "other platforms / Python versions are out of reach"]  # fmt: skip
@@ -152,6 +156,9 @@ def replay(data):
     if k.startswith("life:") and "history" in data:
         spec = spec_for("thorough")
         spec.prepare()
+        if data.get("kind") == "life:two-fresh-evaluators":
+            ok, tab, note = spec._fresh_one(data["text"])
+            return bool(note), note or "two fresh evaluators agree"
         hist = [tuple(h) for h in data["history"]]
         objs, model, outs = spec.run_history(hist[:-1])
         op = hist[-1]
